@@ -63,7 +63,11 @@ def compute_signature(
             # Hash on UFL signature and points
             signature = ufl.algorithms.signature.compute_expression_signature(expr, rn)
             object_signature += signature
-            object_signature += repr(points)
+            # Hash the exact coordinates and the shape of the points: repr() of
+            # an array keeps 8 significant digits and elides large arrays
+            _points = np.ascontiguousarray(points, dtype=np.float64)
+            object_signature += str(_points.shape)
+            object_signature += hashlib.sha1(_points.tobytes()).hexdigest()
 
             kind = "expression"
         else:
